@@ -100,7 +100,7 @@ def rand_flat(rnd, depth):
 
 TOKENS = [('num', ['1', '2.5', '10']), ('str', ["'s'", '"t"']), ('var', ['xx', 'yy', 'ff', 'e5', 'e2', 'E3']),
           ('op', ['*', '+', '==', '&&', '<', '**', '||', '%']), ('not', ['!']), ('minus', ['-']), ('lp', ['(']), ('rp', [')']),
-          ('comma', [','])]
+          ('comma', [',']), ('junk', ['=', '&', '|', '@', '~', '=>', '!!='])]
 
 
 def _gram(rnd, d):
@@ -147,7 +147,7 @@ def rand_tokens(rnd):
             return toks
     n = rnd.randint(1, 9)
     out = []
-    weights = [3, 1, 3, 3, 1, 1, 2, 2, 1]
+    weights = [3, 1, 3, 3, 1, 1, 2, 2, 1, 1]
     for _ in range(n):
         t, texts = rnd.choices(TOKENS, weights)[0]
         out.append({'t': t, 'text': rnd.choice(texts)})
